@@ -153,11 +153,38 @@ pub fn cases_of(zoo: &Zoo, entry: usize, payloads: usize, rng: &mut impl RngCore
     // decision components
     let deciders: Vec<usize> = (0..f.comps.len()).filter(|&i| i >= n_root || f.comps[i].presence != Presence::Mandatory).collect();
     let mut out = Vec::new();
-    for mask in 0..(1usize << deciders.len()) {
+    let k = deciders.len();
+    // the decision vectors: all 2^k of them, or - for the wide family - a sample built around the ends
+    let masks: Vec<Vec<bool>> = if k <= 12 {
+        (0..(1usize << k)).map(|mask| (0..k).map(|b| mask & (1 << b) != 0).collect()).collect()
+    } else {
+        let mut m: Vec<Vec<bool>> = vec![vec![false; k], vec![true; k]];
+        let single = |i: usize| (0..k).map(|b| b == i).collect::<Vec<bool>>();
+        m.push(single(0));
+        m.push(single(k - 1));
+        m.push((0..k).map(|b| b == 0 || b == k - 1).collect());
+        for i in [62usize, 63, 64, 65] {
+            if i < k {
+                m.push(single(i));
+                m.push((0..k).map(|b| b == 0 || b == i).collect());
+            }
+        }
+        for r in 0..24u32 {
+            // random vectors of several densities; every other one with the first flag set
+            let density = [2u32, 8, 14][(r % 3) as usize];
+            let mut v: Vec<bool> = (0..k).map(|_| rng.next_u32() % 16 < density).collect();
+            if r % 2 == 0 {
+                v[0] = true;
+            }
+            m.push(v);
+        }
+        m
+    };
+    for mask in masks {
         for _ in 0..payloads {
             let mut pattern = vec![true; f.comps.len()];
             for (b, &i) in deciders.iter().enumerate() {
-                pattern[i] = mask & (1 << b) != 0;
+                pattern[i] = mask[b];
             }
             let slots: Vec<Option<Value>> = f
                 .comps
@@ -184,7 +211,7 @@ fn case_json(zoo: &Zoo, c: &Case) -> J {
     json!({"module_text": e.text(), "module": e.module.name, "type": e.def.name, "asn1": vcore::print::type_text(&e.def.ty), "pattern": c.pattern, "value_brief": c.value.brief(), "value": serde_json::to_value(&c.value).unwrap()})
 }
 
-const RULE: &str = "bounded-exhaustive: every SEQUENCE and SET shape with <= N components (N = 3 quick, 5 thorough; each component mandatory / OPTIONAL / DEFAULT, extension marker at every position or absent; component types rotate through INTEGER(0..255), BOOLEAN, IA5String(SIZE(1..3)), INTEGER(-8..7), a referenced ENUMERATED, NULL; a second family with <= 2 components whose types are a reference to an alias of INTEGER, a reference to a plain SEQUENCE and an inline plain SEQUENCE (types that bring a scope of their own); SET shapes carry explicit tags that reverse the root order), compiled through the real pipeline; for every shape all 2^k presence patterns (k = OPTIONAL/DEFAULT root components + extension additions; DEFAULT: equal to / different from the default) x 3 random payloads. Oracle: preamble computed from shape and pattern; whole encoding == reference; decode returns the written presence; Err only ExtensionFieldsInconsistent and only for 'first addition absent, later present' - and for that pattern the reference encoder's bits (what a peer may send) must decode to the pattern. Non-trivial: shape has >= 1 OPTIONAL/DEFAULT/extension component; distinct = (shape, pattern, payload).";
+const RULE: &str = "bounded-exhaustive: every SEQUENCE and SET shape with <= N components (N = 3 quick, 5 thorough; each component mandatory / OPTIONAL / DEFAULT, extension marker at every position or absent; component types rotate through INTEGER(0..255), BOOLEAN, IA5String(SIZE(1..3)), INTEGER(-8..7), a referenced ENUMERATED, NULL; a second family with <= 2 components whose types are a reference to an alias of INTEGER, a reference to a plain SEQUENCE and an inline plain SEQUENCE (types that bring a scope of their own); SET shapes carry explicit tags that reverse the root order), compiled through the real pipeline; for every shape all 2^k presence patterns (a third, wide family - SEQUENCE / SET with 63, 64, 65, 70, 130 OPTIONAL/DEFAULT root components and extensible SEQUENCEs with 63, 64, 65, 70 extension additions - has its patterns sampled: none, all, single flags at the ends and at 62..65, pairs with the first flag, 24 random vectors) (k = OPTIONAL/DEFAULT root components + extension additions; DEFAULT: equal to / different from the default) x 3 random payloads. Oracle: preamble computed from shape and pattern; whole encoding == reference; decode returns the written presence; Err only ExtensionFieldsInconsistent and only for 'first addition absent, later present' - and for that pattern the reference encoder's bits (what a peer may send) must decode to the pattern. Non-trivial: shape has >= 1 OPTIONAL/DEFAULT/extension component; distinct = (shape, pattern, payload).";
 
 pub fn run(ctx: Ctx) -> i32 {
     let report = Report::new(ctx.clone(), RULE);
@@ -208,7 +235,7 @@ pub fn run(ctx: Ctx) -> i32 {
         return report.finish();
     }
     report.run_probes(&replay);
-    let shapes: Vec<usize> = (0..zoo.entries.len()).filter(|i| zoo.entries[*i].group == "c03" && fields_of(&zoo.entries[*i]).is_some()).collect();
+    let shapes: Vec<usize> = (0..zoo.entries.len()).filter(|i| (zoo.entries[*i].group == "c03" || zoo.entries[*i].group == "c03wide") && fields_of(&zoo.entries[*i]).is_some()).collect();
     let n_max = zoo.zmods.iter().filter(|z| z.group == "c03").filter_map(|z| z.meta["n_max"].as_u64()).max().unwrap_or(0);
     let bad = run_in_workers(&report, 16, std::time::Duration::from_secs(ctx.tier.pick(600, 7200)), &|report: &Report| {
         report.ctx.my_shards(shapes.len() as u64).par_iter().for_each(|&k| {
